@@ -586,8 +586,13 @@ pub fn wellformed_renderings(rng: &mut Rng, fmt: &str, p: &Value) -> Vec<Vec<u8>
     let maxfield = p["maxfield"].as_u64().unwrap_or(6) as usize;
     let alpha: Vec<u8> = vec![b'A', b'C', b'G', b' ', b'@', b'+', b'>', b'I', 0xC3, 0xA9, b';'];
     let field = |rng: &mut Rng, n: usize| -> Vec<u8> { (0..n).map(|_| *rng.pick(&alpha)).collect() };
-    // lines of the file, LF-free
+    // lines of the file, LF-free; blank lines may precede the first FASTA record and follow the last record
     let mut lines: Vec<Vec<u8>> = vec![];
+    if fmt == "fasta" && rng.chance(1, 3) {
+        for _ in 0..(1 + rng.below(4)) {
+            lines.push(vec![]);
+        }
+    }
     let nrec = 1 + rng.below(maxrec);
     for _ in 0..nrec {
         if fmt == "fasta" {
@@ -616,6 +621,11 @@ pub fn wellformed_renderings(rng: &mut Rng, fmt: &str, p: &Value) -> Vec<Vec<u8>
             }
             lines.push(sep);
             lines.push(field(rng, n));
+        }
+    }
+    if rng.chance(1, 4) {
+        for _ in 0..(1 + rng.below(2)) {
+            lines.push(vec![]);
         }
     }
     let render = |eol: &dyn Fn(usize) -> bool, fin: bool| -> Vec<u8> {
